@@ -68,35 +68,50 @@ Inductive bres := BFuel | BErr | BHi (hi : N).
 
 Definition U64 : N := 18446744073709551616.
 
-(* evmtypes.BinSearch: for lo+1 < hi { mid := (hi+lo)/2; ... } with uint64 arithmetic *)
-Fixpoint bin_search (fuel : nat) (ex : N -> exres) (lo hi : N) : bres :=
-  match fuel with
-  | O => BFuel
-  | S f =>
-      if (lo + 1) mod U64 <? hi then
-        let mid := ((hi + lo) mod U64) / 2 in
-        match ex mid with
-        | ExErr => BErr
-        | ExOk => bin_search f ex lo mid
-        | _ => bin_search f ex mid hi
-        end
-      else BHi hi
-  end.
+(* evmtypes.BinSearch (x/evm/types/utils.go, since /repo 81e4910): for lo+1 < hi { mid := lo + (hi-lo)/2; ... } with
+   uint64 arithmetic: the sum hi+lo is no longer formed, so the midpoint cannot wrap around *)
+Definition mid64 (lo hi : N) : N := (lo + ((hi + U64 - lo) mod U64) / 2) mod U64.
+(* the midpoint before 81e4910: (hi + lo) / 2, the sum wrapping around uint64 *)
+Definition mid64_wrapping (lo hi : N) : N := ((hi + lo) mod U64) / 2.
 
-(* probes made by the search, in order (observable when BinSearch is driven directly) *)
-Fixpoint bin_probes (fuel : nat) (ex : N -> exres) (lo hi : N) : list N :=
-  match fuel with
-  | O => []
-  | S f =>
-      if (lo + 1) mod U64 <? hi then
-        let mid := ((hi + lo) mod U64) / 2 in
-        mid :: match ex mid with
+Section BinSearch.
+  Variable mid : N -> N -> N.
+
+  Fixpoint bin_search_with (fuel : nat) (ex : N -> exres) (lo hi : N) : bres :=
+    match fuel with
+    | O => BFuel
+    | S f =>
+        if (lo + 1) mod U64 <? hi then
+          let m := mid lo hi in
+          match ex m with
+          | ExErr => BErr
+          | ExOk => bin_search_with f ex lo m
+          | _ => bin_search_with f ex m hi
+          end
+        else BHi hi
+    end.
+
+  (* probes made by the search, in order (observable when BinSearch is driven directly) *)
+  Fixpoint bin_probes_with (fuel : nat) (ex : N -> exres) (lo hi : N) : list N :=
+    match fuel with
+    | O => []
+    | S f =>
+        if (lo + 1) mod U64 <? hi then
+          let m := mid lo hi in
+          m :: match ex m with
                | ExErr => []
-               | ExOk => bin_probes f ex lo mid
-               | _ => bin_probes f ex mid hi
+               | ExOk => bin_probes_with f ex lo m
+               | _ => bin_probes_with f ex m hi
                end
-      else []
-  end.
+        else []
+    end.
+End BinSearch.
+
+Definition bin_search := bin_search_with mid64.
+Definition bin_probes := bin_probes_with mid64.
+(* the search as it was before 81e4910 (for the statement of what the repair removed) *)
+Definition bin_search_wrapping := bin_search_with mid64_wrapping.
+Definition bin_probes_wrapping := bin_probes_with mid64_wrapping.
 
 Inductive estres :=
 | EstOk (g : N)
